@@ -365,6 +365,33 @@ func (p *Prog) definitelyNonNil(v ssa.Value, r *ssa.Return) bool {
 		if n == "fmt.Errorf" || n == "errors.New" || n == "net.NewConnectionError" || strings.HasSuffix(n, ".NewConnectionError") || n == "errors.Join" {
 			return true
 		}
+		// a repo constructor helper (newReplayError(status)): every one of its returns is definitely non-nil
+		if h := x.Call.StaticCallee(); h != nil && p.InRepo(h) && len(h.Blocks) > 0 && !p.nonNilBusy[h] {
+			if p.nonNilBusy == nil {
+				p.nonNilBusy = map[*ssa.Function]bool{}
+			}
+			p.nonNilBusy[h] = true
+			all, cnt := true, 0
+			ri := -1
+			if tup, ok := h.Signature.Results().At(0).Type(), true; ok && h.Signature.Results().Len() == 1 {
+				_ = tup
+				ri = 0
+			}
+			for _, hr := range Returns(h) {
+				if ri < 0 || len(hr.Results) != 1 {
+					all = false
+					continue
+				}
+				cnt++
+				if !p.definitelyNonNil(hr.Results[0], hr) {
+					all = false
+				}
+			}
+			delete(p.nonNilBusy, h)
+			if all && cnt > 0 {
+				return true
+			}
+		}
 	case *ssa.MakeInterface:
 		if _, isC := x.X.(*ssa.Const); !isC {
 			return true
